@@ -32,8 +32,10 @@ SHIELD = {"engines": [chain("shield", 128, 1280, ops=160, tops=240)],
 PROPS = {
     "C02": dict(SHIELD, lean=["Shentu.Props.C02", "Shentu.Props.ShieldTie"]),
     "C03": dict(SHIELD, lean=["Shentu.Props.C03a", "Shentu.Props.C03b", "Shentu.Props.ShieldTie"]),
-    "C04": dict(SHIELD, lean=["Shentu.Props.C04", "Shentu.Props.ShieldTie"], assumptions=SHIELD["assumptions"] + [
-        "'taken from its bonded or unbonding stake' is observed on the real application (the coins arrive from the staking pools), the model moves them from the bonded pool only"]),
+    "C04": dict(SHIELD, lean=["Shentu.Props.C04", "Shentu.Props.ShieldTie"],
+                engines=SHIELD["engines"] + [chain("payout", 64, 640, ops=120, tops=200)],
+                assumptions=SHIELD["assumptions"] + [
+        "'taken from its bonded or unbonding stake': in the shield model the coins move from the staking pools in one step; how the code takes them (split, pro-rata loop, shares rounded up, unbonding entries) is Model/Payout.lean, run against the real keeper's MakePayoutByProviderDelegations by the engine 'payout' on states reached by shield histories, after random slashes and undelegations in a discarded cache context"]),
     "C05": dict(SHIELD, lean=["Shentu.Props.C05", "Shentu.Props.ShieldTie"]),
     "C06": dict(SHIELD, lean=["Shentu.Props.C06", "Shentu.Props.ShieldTie"], assumptions=SHIELD["assumptions"] + [
         "the converse (a funded purchase meeting the conditions is accepted) is proved for purchases whose fee or stake does not truncate to zero (amount x rate >= 1 unit); with the default minimum purchase of 50 CTK this always holds; below it the module answers ErrNoShield"]),
